@@ -2,7 +2,7 @@
 # usage: confirm_seed.sh <worktree> <variant>   (worktree contains seeded/<variant>/{patch.diff,meta.json,demo*})
 # Confirms: demo passes on the clean tree; with the patch: builds, same test pass-set as baseline, demo fails.
 export GOFLAGS=-mod=mod GOPROXY=off GOSUMDB=off GOTOOLCHAIN=local
-WT="$1"; V="$2"; S="$WT/seeded/$V"
+WT="$1"; V="$2"; S="$WT/seeded/$V"; BASE="$(dirname "$WT")/baseline.pass"
 cd "$WT" || exit 2
 git checkout -q -- . ; git clean -fdq -- pub streams astool
 passset() { go test -json -vet=off -count=1 ./pub/... ./streams/... ./astool/... 2>/dev/null | python3 -c '
@@ -13,16 +13,16 @@ for l in sys.stdin:
     except Exception: continue
     if d.get("Action")=="pass" and d.get("Test"): ok.add(d["Package"]+"::"+d["Test"])
 print("\n".join(sorted(ok)))'; }
-[ -f /var/tmp/wt/baseline.pass ] || passset > /var/tmp/wt/baseline.pass
+[ -f $BASE ] || passset > $BASE
 CMD=$(python3 -c 'import json,sys; print(json.load(open(sys.argv[1]))["demo_cmd"])' "$S/meta.json")
 clean_out=$(bash -c "$CMD" 2>&1); 
 echo "$clean_out" | grep -q -E '^(FAIL|--- FAIL|panic:)|VIOLATION' && CLEAN=fail || CLEAN=pass
 git checkout -q -- . ; git clean -fdq -- pub streams astool
 git apply "$S/patch.diff" || { echo "RESULT $WT/$V patch-does-not-apply"; exit 1; }
 go build ./... >/dev/null 2>&1 && BUILD=ok || BUILD=fail
-passset > /var/tmp/wt/cur.$$.pass
-cmp -s /var/tmp/wt/baseline.pass /var/tmp/wt/cur.$$.pass && TESTS=same || TESTS=differ
-rm -f /var/tmp/wt/cur.$$.pass
+passset > $BASE.cur.$$
+cmp -s $BASE $BASE.cur.$$ && TESTS=same || TESTS=differ
+rm -f $BASE.cur.$$
 mut_out=$(bash -c "$CMD" 2>&1)
 echo "$mut_out" | grep -q -E '^(FAIL|--- FAIL|panic:)|VIOLATION' && MUT=fail || MUT=pass
 git checkout -q -- . ; git clean -fdq -- pub streams astool
